@@ -24,9 +24,7 @@ def IsInv (d : Nat) (C B : Mat) : Prop :=
 
 /-! ### Gram form -/
 
-/-- `G[p][q] = Σ_r w_r · a_{r,p} · a_{r,q}` -/
-def gram (d R : Nat) (w : Nat → Rat) (a : Nat → Nat → Rat) : Mat :=
-  tab d d fun p q => sumTo R fun r => w r * a r p * a r q
+/- `gram` (the Gram form `G[p][q] = Σ_r w_r · a_{r,p} · a_{r,q}`) is defined in Core/C12GMRF.lean -/
 
 theorem gram_qf (d R : Nat) (w : Nat → Rat) (a : Nat → Nat → Rat) (y : Nat → Rat) :
     qf d (ent (gram d R w a)) y = ∑ r ∈ range R, w r * (∑ p ∈ range d, y p * a r p) ^ 2 := by
